@@ -106,20 +106,8 @@ def post_model(ctx, T, run_model):
         # multi-position tag changes: the same delta at two positions (all pairs 16 and 32 apart — the lane structure of the vectorised
         # comparison, C14 verify_n_sse2 — and random pairs), complement, byte rotation, swapped halves
         if len(mac) >= 32 or len(m) <= 2:
-            for i in range(len(mac)):
-                for d in (16, 32):
-                    if i + d < len(mac):
-                        x = bytearray(mac); delta = 1 << rng.randrange(8); x[i] ^= delta; x[i + d] ^= delta
-                        forged.append(dec(1, c, bytes(x), ad, n, k))
-            for _ in range(8):
-                i, j = rng.sample(range(len(mac)), 2)
-                x = bytearray(mac); delta = rng.randrange(1, 256); x[i] ^= delta; x[j] ^= delta
-                forged.append(dec(rng.choice([0, 1]), c, bytes(x), ad, n, k))
-            forged.append(dec(1, c, bytes(b ^ 0xff for b in mac), ad, n, k))
-            forged.append(dec(1, c, mac[1:] + mac[:1], ad, n, k))
-            h = len(mac) // 2
-            if mac[h:] != mac[:h]:
-                forged.append(dec(1, c, mac[h:] + mac[:h], ad, n, k))
+            for x in vcore.tag_mutations(rng, mac):      # all position pairs (16-byte tags) / pairs 1, 2, 4, 8, 16, 32 apart, complement, rotations, swaps
+                forged.append(dec(rng.choice([1, 1, 0]), c, x, ad, n, k))
         for x in flips(rng, c, dense):
             forged.append(dec(rng.choice([0, 1, 1]), x, mac, ad, n, k))
         if kind == "aead":
@@ -203,6 +191,8 @@ def post_model(ctx, T, run_model):
         for cut in range(17, len(c)):
             extra_f.append("ss.pull 1 %s %s" % (hexs(c[:cut]), hexs(ad)))
         extra_f.append("ss.pull 1 %s %s" % (hexs(c + b"\x00"), hexs(ad)))
+        for x in vcore.tag_mutations(rng, c[-16:]):                              # multi-position changes of the chunk authenticator (sodium_memcmp in pull)
+            extra_f.append("ss.pull 1 %s %s" % (hexs(c[:-16] + x), hexs(ad)))
         if ad:
             for x in flips(rng, ad, True):
                 extra_f.append("ss.pull 1 %s %s" % (hexs(c), hexs(x)))
